@@ -48,6 +48,13 @@ pub struct Probes {
     dyn_replay_prev: bool,
 }
 
+/// What the TCP server does for an ActOnFakeKey request once it holds the lock (mirrors
+/// src/tcp_server.rs, which itself cannot run under the simulator: it owns real sockets).
+pub fn tcp_act_on_fake_key(k: &mut Kanata, action: kanata_parser::custom_action::FakeKeyAction, idx: u16) {
+    k.vkeys_pending_release.remove(&kanata_parser::custom_action::Coord { x: kanata_parser::cfg::FAKE_KEY_ROW, y: idx });
+    handle_fakekey_action(action, k.layout.bm(), kanata_parser::cfg::FAKE_KEY_ROW, idx);
+}
+
 pub struct Stepper {
     /// keys kanata intercepts (what event_loop's MAPPED_KEYS filter lets through); None = unfiltered
     pub mapped: Option<rustc_hash::FxHashSet<OsCode>>,
@@ -412,7 +419,7 @@ impl Stepper {
                         2 => FakeKeyAction::Tap,
                         _ => FakeKeyAction::Toggle,
                     };
-                    handle_fakekey_action(action, self.k.layout.bm(), FAKE_KEY_ROW, idx as u16);
+                    tcp_act_on_fake_key(&mut self.k, action, idx as u16);
                 }
                 self.wakeup();
                 self.after_input();
